@@ -195,6 +195,39 @@ def driver(lines, timeout=3600):
     return out
 
 
+def _run_group(arg):
+    fn, group = arg
+    return [fn(j) for j in group]
+
+
+def parallel_families(fn, jobs, famkey, notes=None, nproc=None):
+    """`[fn(j) for j in jobs]`, evaluated in worker processes forked from this one (the tree under examination is already
+    imported; `fn` is a module-level function reading module globals set before the call).  One unit of work is a *family*
+    of jobs (equal `famkey(job)`), kept in order inside one process, so that state a library keeps between calls for related
+    inputs (caches keyed by a name or number) still meets the same sequence of calls.  Falls back to this process."""
+    fams = {}
+    for k, j in enumerate(jobs):
+        fams.setdefault(famkey(j), []).append(k)
+    order = sorted(fams.values(), key=len, reverse=True)
+    n = nproc or max(1, min(12, (os.cpu_count() or 2) - 2))
+    try:
+        import multiprocessing
+
+        if n == 1 or len(jobs) < 64:
+            raise RuntimeError("small job")
+        with multiprocessing.get_context("fork").Pool(processes=n) as pool:
+            parts = pool.map(_run_group, [(fn, [jobs[k] for k in ks]) for ks in order], chunksize=1)
+    except Exception as e:  # noqa: BLE001
+        if notes is not None and str(e) != "small job":
+            notes.append("worker pool unavailable (%r): evaluated sequentially" % (e,))
+        return [fn(j) for j in jobs]
+    out = [None] * len(jobs)
+    for ks, part in zip(order, parts):
+        for k, r in zip(ks, part):
+            out[k] = r
+    return out
+
+
 def known_findings(pid):
     try:
         d = json.load(open(os.path.join(VERIF, "known_findings.json")))
